@@ -619,6 +619,9 @@ def decode_numpy(nc, mem, q, o):
     strides = _vec_terms(mem, o, q.off + fo[5], 'strides')
     dims = [concrete(x, 'NumpyArray shape') for x in shape]
     strs = [concrete(x, 'NumpyArray stride') for x in strides]
+    if not dims and not strs:
+        # a zero-dimensional NumpyArray (a scalar in array clothing): it has no entries, which is what any comparison with a list reports
+        return dict(cls='numpy', values=[], byteoffset=cell(fo[6]), itemsize=concrete(cell(fo[7]), 'itemsize'), scalar=True)
     if len(dims) != len(strs) or not dims:
         raise Unsupported('NumpyArray result with shape %s and strides %s' % (dims, strs))
     itemsize = concrete(cell(fo[7]), 'itemsize')
@@ -687,6 +690,10 @@ def length_of(d):
     return len(d['index'])
 
 
+class Malformed(Exception):
+    """the decoded result addresses something that is not there (a structure no valid array has)"""
+
+
 def at(d, k):
     """element k (z3 term or int) of a decoded node as a nested list of Elem"""
     k = BV(k) if isinstance(k, int) else k
@@ -694,7 +701,10 @@ def at(d, k):
     if c == 'numpy':
         def wrap(v):
             return [wrap(x) for x in v] if isinstance(v, list) else Elem(v)
-        return wrap(d['values'][concrete(k, 'position in a NumpyArray')])
+        kk_ = concrete(k, 'position in a NumpyArray')
+        if not 0 <= kk_ < len(d['values']):
+            raise Malformed('position %d of a NumpyArray of %d entries%s' % (kk_, len(d['values']), ' (zero-dimensional)' if d.get('scalar') else ''))
+        return wrap(d['values'][kk_])
     if c == 'opaque':
         return Elem(z3.simplify(z3.Select(d['atoms'], k)))
     if c == 'regular':
@@ -834,10 +844,13 @@ def compare_value(res, want, path='value'):
         except Unsupported:
             extra = []
     try:
-        return compare(value(res), want, path) + extra
-    except Unsupported:
-        L = symbolic_length(res)
-        out = [('%s has %d entries' % (path, len(want)), L != len(want))]
-        for i, w in enumerate(want):
-            out += compare(at(res, i), w, '%s[%d]' % (path, i))
-        return out + extra
+        try:
+            return compare(value(res), want, path) + extra
+        except Unsupported:
+            L = symbolic_length(res)
+            out = [('%s has %d entries' % (path, len(want)), L != len(want))]
+            for i, w in enumerate(want):
+                out += compare(at(res, i), w, '%s[%d]' % (path, i))
+            return out + extra
+    except Malformed as err:
+        return [('%s is a well-formed array (reading it needs %s)' % (path, err), z3.BoolVal(True))] + extra
